@@ -254,7 +254,13 @@ func (sf *shadowFixture) build(p shadowPattern, f shadowForm, cb shadowCombo, is
 	default:
 		stmt = "$v = " + expr + ";"
 	}
-	probeBody := pre + "\n$st = \"denied\"; $v = \"-\";\ntry { " + stmt + " $st = \"ok\"; } catch (\\Throwable $e) { $st = \"denied\"; }\necho \"R|\", $st, \"|\"; echo $v; echo \"\\n\";\n"
+	_, allowed0, open0, _ := shadowResolve(p, f.kind, callerCode(cb.caller), cb.obj)
+	repeated := !allowed0 && !open0
+	block := "$st = \"denied\"; $v = \"-\";\ntry { " + stmt + " $st = \"ok\"; } catch (\\Throwable $e) { $st = \"denied\"; }\necho \"R|\", $st, \"|\"; echo $v; echo \"\\n\";\n"
+	if repeated {
+		block = repeatBlock(block)
+	}
+	probeBody := pre + "\n" + block
 
 	for l := 0; l < 3; l++ {
 		fmt.Fprintf(&b, "class %s", sf.Cls[l])
@@ -334,7 +340,11 @@ func (sf *shadowFixture) build(p shadowPattern, f shadowForm, cb shadowCombo, is
 			}
 			return "", ""
 		}
-		if st == "ok" {
+		if repeated {
+			if cls, why := o.retryVerdict(attempts); cls != "" {
+				return cls, fmt.Sprintf("pattern %s: code of %s on a %s object refers to the %s declaration of level %c: %s", p, callerLbl, objLbl, p[decl], 'A'+decl, why)
+			}
+		} else if st == "ok" {
 			return "leak", fmt.Sprintf("pattern %s: code of %s on a %s object refers to the %s declaration of level %c; the access succeeded (value %s)", p, callerLbl, objLbl, p[decl], 'A'+decl, o.R[1])
 		}
 		if len(o.Called) > 0 || o.Lines["B"] != o.Lines["A"] {
